@@ -24,6 +24,6 @@ def currentCfg : Cfg := {
   cloneRegsFiltered := true,
   cloneRegsByValue := true,
   extKeepRegs := true,
-  extLeafCopied := false
+  extLeafCopied := true
 }
 end PyGql.Generated.HeapCfg
